@@ -838,3 +838,38 @@ func percentStringCase(i int) *sem.Case {
 	}
 	return c
 }
+
+// spellingChainCase: one file reached under several spellings of its path inside one run - "file://lib/deep/def1"
+// completed by --resolve-extension, "deep/def1.json" from a sibling directory's document, "../deep/def1.json", "./def1.json"
+// - where the file itself holds a relative reference ("../def0.yaml") and its root type name is therefore taken
+// when the second spelling arrives. The run must succeed, the file must come out as ONE Go type (census
+// spellingChainCensus), and documents are held to the rules of def0 through every path. (The shape of the two
+// defects repaired by 244ae57 / ebde6a3, found by the thorough tier.)
+func spellingChainCase(i int) *sem.Case {
+	def0 := &sg.Schema{Types: []string{"integer"}, HasEnum: true, Enum: []any{jsonx.N(7), jsonx.N(42)}}
+	def1 := &sg.Schema{Types: []string{"object"}, Props: []sg.Prop{{Name: "iota", S: &sg.Schema{Types: []string{"integer"}, HasEnum: true, Enum: []any{jsonx.N(0), jsonx.N(7), jsonx.N(1)}}},
+		{Name: "pi", S: &sg.Schema{Ref: "../def0.yaml", Target: def0}}, {Name: "eta", S: &sg.Schema{Types: []string{"string"}, HasEnum: true, Enum: []any{"amber", "blue"}}}}, Required: []string{"iota"}}
+	def2 := &sg.Schema{Types: []string{"object"}, Props: []sg.Prop{{Name: "delta", S: &sg.Schema{Ref: "deep/def1.json", Target: def1}}}}
+	def3 := &sg.Schema{Types: []string{"object"}, Props: []sg.Prop{{Name: "ups", S: &sg.Schema{Ref: "../def0.yaml", Target: def0}}, {Name: "xi", S: &sg.Schema{Ref: "../def2.json", Target: def2}}}}
+	spell := []string{"file://lib/deep/def1", "lib/deep/def1", "./lib/deep/def1.json", "lib/deep/../deep/def1.json", "lib/../lib/deep/def1"}[i%5]
+	root := &sg.Schema{Types: []string{"object"}, Props: []sg.Prop{{Name: "xi", S: &sg.Schema{Ref: "file://lib/deep/def3.json", Target: def3}},
+		{Name: "rho", S: &sg.Schema{Types: []string{"array"}, Items: &sg.Schema{Ref: spell, Target: def1}}}}}
+	if (i/5)%2 == 1 {
+		// the other order of arrival: the direct reference sorts after the chain
+		root.Props = []sg.Prop{{Name: "axi", S: &sg.Schema{Ref: "file://lib/deep/def3.json", Target: def3}}, {Name: "zrho", S: &sg.Schema{Types: []string{"array"}, Items: &sg.Schema{Ref: spell, Target: def1}}}}
+	}
+	c := &sem.Case{Root: root, Sig: fmt.Sprintf("spelling-chain/%d", i%10), NoAuto: true, RootFile: "main/sub/root.json", Input: "main/sub/root.json", Args: []string{"--resolve-extension", ".json"}, RootType: "Root",
+		Extra: []batch.File{{Path: "main/sub/lib/def0.yaml", Data: sg.ToYAML(def0.ToJSON(), sg.YAMLBlock)}, {Path: "main/sub/lib/deep/def1.json", Data: jsonx.MarshalIndent(def1.ToJSON())},
+			{Path: "main/sub/lib/def2.json", Data: jsonx.MarshalIndent(def2.ToJSON())}, {Path: "main/sub/lib/deep/def3.json", Data: jsonx.MarshalIndent(def3.ToJSON())},
+			// a decoy next to the working directory: what "def0.yaml" must NOT mean
+			{Path: "def0.yaml", Data: []byte("\"type\": \"string\"\n")}}}
+	xi, rho := root.Props[0].Name, root.Props[1].Name
+	d1 := func(pi any) jsonx.Obj { return jsonx.Obj{{K: "iota", V: jsonx.N(7)}, {K: "pi", V: pi}} }
+	for _, pi := range []any{jsonx.N(7), jsonx.N(42), jsonx.N(8), "seven"} {
+		c.Docs = append(c.Docs, docgen.Doc{V: jsonx.Obj{{K: rho, V: []any{d1(pi)}}}, Class: "deep", Label: "direct-spelling"},
+			docgen.Doc{V: jsonx.Obj{{K: xi, V: jsonx.Obj{{K: "xi", V: jsonx.Obj{{K: "delta", V: d1(pi)}}}}}}, Class: "deep", Label: "through-the-chain"},
+			docgen.Doc{V: jsonx.Obj{{K: xi, V: jsonx.Obj{{K: "ups", V: pi}}}}, Class: "deep", Label: "def0-directly"})
+	}
+	c.Docs = append(c.Docs, docgen.Doc{V: jsonx.Obj{{K: rho, V: []any{jsonx.Obj{{K: "pi", V: jsonx.N(7)}}}}}, Class: "required", Label: "def1-required"})
+	return c
+}
